@@ -116,7 +116,8 @@ class SharedMemoryFileBufferedCollection(FileBufferedCollection):
                 # object's data so that it will stop sharing data with the
                 # other instance.
                 if not force:
-                    self._data.clear()
+                    # Merge in place (without clearing first) so that nested
+                    # collections retained by the user stay attached.
                     self._update(self._load_from_resource())
             else:
                 # If the contents have not been changed since the initial read,
